@@ -37,6 +37,7 @@ def plan(tier, seed):
     for v in vs:
         specs.append({'kind': 'grids', 'version': v})
         specs.append({'kind': 'short', 'version': v, 'alpha': alpha, 'L': 4})
+        specs.append({'kind': 'hostile', 'version': v})
     return specs
 
 
@@ -285,8 +286,40 @@ def run_short(spec, rec):
     rec.seen('versions_short', v)
 
 
+HOSTILE = ['1' * 29 + '.5', '123456789012345678901234567890.5', '-' + '9' * 40, '0.' + '1' * 35, '1234567.8', '0.000001234567',
+           '-1234567890123456', '123456789012345.6', '-123456789012345.6', '1234567890123456', '12345678901234567',
+           '-123456789012345', '99999', '100000', '12345',
+           'not a number ' * 20, 'x' * 1100, '2020' + 'y' * 300, '12' + ' ' * 250 + '3', '1' * 250, '9' * 1000]
+
+
+def run_hostile(spec, rec):
+    """values at the edges of the numeric representation (more digits than the default decimal precision, maximum lengths
+    with a sign or a decimal point) and long invalid texts, judged as usual and again under a hostile process state: default
+    validation level STRICT, and a decimal context with a low precision - neither is an input of the conversion"""
+    import decimal
+    import hl7apy
+    v = spec['version']
+    types = [t for t in TYPES if has_type(v, t)]
+    base_level = hl7apy.get_default_validation_level()
+    base_prec = decimal.getcontext().prec
+    for state in ('baseline', 'default-level-strict', 'decimal-precision-6'):
+        try:
+            if state == 'default-level-strict':
+                hl7apy.set_default_validation_level(1)
+            elif state == 'decimal-precision-6':
+                decimal.getcontext().prec = 6
+            for k, sv in enumerate(HOSTILE):
+                for dt in types:
+                    judge(dt, v, sv, rec, via='subcomponent' if k % 2 else 'factory')
+                    rec.count('hostile_cases:%s' % state)
+        finally:
+            hl7apy.set_default_validation_level(base_level)
+            decimal.getcontext().prec = base_prec
+    rec.seen('versions_hostile', v)
+
+
 def run_shard(spec, rec):
-    {'grid': run_grid, 'grids': run_grids, 'short': run_short}[spec['kind']](spec, rec)
+    {'grid': run_grid, 'grids': run_grids, 'short': run_short, 'hostile': run_hostile}[spec['kind']](spec, rec)
 
 
 def replay(case, rec):
